@@ -247,7 +247,11 @@ void h_project_body(void) { void *vs, *co; unsigned i; w_project_body(vs, co, i)
 #define CK ((struct Constraint *)*(void **)slot)
 #define LASTU ((struct UInfo *)AT(out, VS(out)->n - 1))
 void w_unsat_body(void *slot, void *out)
-__CPROVER_requires(__CPROVER_is_fresh(slot, sizeof(void *)) && __CPROVER_is_fresh(*(void **)slot, sizeof(struct Constraint)) && FRESH_OUT(out))
+/* the report list may already hold entries (up to 3 here), each a live info record */
+#define OUT_ENTRY_OK(k) (VS(out)->n <= (k) || __CPROVER_is_fresh(AT(out, k), sizeof(struct UInfo)))
+__CPROVER_requires(__CPROVER_is_fresh(slot, sizeof(void *)) && __CPROVER_is_fresh(*(void **)slot, sizeof(struct Constraint)))
+__CPROVER_requires(__CPROVER_is_fresh(out, sizeof(struct vec)) && VS(out)->n < VS(out)->cap && VS(out)->cap == 4 && __CPROVER_is_fresh(VS(out)->d, 4 * sizeof(void *)))
+__CPROVER_requires(OUT_ENTRY_OK(0) && OUT_ENTRY_OK(1) && OUT_ENTRY_OK(2))
 __CPROVER_requires(__CPROVER_is_fresh(CK->left, sizeof(struct Variable)) && __CPROVER_is_fresh(CK->right, sizeof(struct Variable)))
 __CPROVER_requires(((struct Variable *)CK->left)->id >= 0 && ((struct Variable *)CK->right)->id >= 0)
 /* a constraint the solver flagged is reported exactly once, as itself, together with the compound constraint that made it */
